@@ -718,8 +718,10 @@ fn run_c04(p: &[f64]) -> Option<String> {
     let mut f: Vec<DD> = vec![DD::from(0.0); n];
     for i in 1..n - 1 {
         let (a, b) = (sec(i - 1), sec(i));
-        let prod = a.mul(b).to_f64();
-        f[i] = if prod <= 0.0 { DD::from(0.0) } else { DD::from(2.0).mul(a).mul(b).div(a.add(b)) };
+        // sign test and harmonic mean without forming the product of the secants (it may be out of range although the mean is not)
+        let (af, bf) = (a.to_f64(), b.to_f64());
+        let opposite_or_flat = af == 0.0 || bf == 0.0 || (af > 0.0) != (bf > 0.0);
+        f[i] = if opposite_or_flat { DD::from(0.0) } else { DD::from(2.0).div(DD::from(1.0).div(a).add(DD::from(1.0).div(b))) };
     }
     f[0] = DD::from(1.5).mul(sec(0)).sub(DD::from(0.5).mul(f[1]));
     f[n - 1] = DD::from(1.5).mul(sec(n - 2)).sub(DD::from(0.5).mul(f[n - 2]));
@@ -779,6 +781,10 @@ fn gen_c04(rng: &mut Rng, n: usize, out: &mut Vec<Case>) {
         vec![(1.0, 5.0), (2.0, 3.0), (4.0, 3.0)],
         vec![(0.0, 0.0), (0.5, 4.0), (3.0, 5.0), (3.5, 9.0), (10.0, 9.5), (11.0, 20.0)],
         vec![(100.0, 1.0), (101.0, 2.0), (102.0, 1.5), (103.0, 4.0)],
+        // huge ordinates: secant slopes around 1e160 (their product is not representable, their harmonic mean is)
+        vec![(0.0, 0.0), (1.0, 1e160), (2.0, 3e160), (3.0, 4e160)],
+        vec![(0.0, 0.0), (1.0, -2e170), (2.0, -3e170), (3.0, -7e170), (4.0, -7.5e170)],
+        vec![(0.0, 1e200), (1e-3, 2e200), (2e-3, 2.5e200), (3e-3, 4e200)],
     ];
     for sh in shapes.iter() { let v: Vec<f64> = sh.iter().flat_map(|(x, y)| vec![*x, *y]).collect(); out.push(case("c04_spline", &v)); }
     while out.len() < n {
